@@ -102,3 +102,58 @@ CHECKS["C15"] = hist_check("C15", 16000, 400000, HIST_GEN + "C15: evaluator over
 CHECKS["C17"] = hist_check("C17", 16000, 400000, HIST_GEN + "C17: every extern \"C\" entry point (header-declared and cmasa.cpp-only) is called and followed by the <double> template call obtained from the NAMING "
                            "convention at the same state: evaluators bitwise, statuses equal (non-zero cases generated: purge, empty vector, unknown names, the failing fixture), arrays through exact-size heap "
                            "buffers, masa_get_name into a sentinel-filled buffer. Non-trivial: >= 3 C calls interleaved with >= 1 C++ state change.")
+
+
+def names_check(pid, cases_q, cases_t, rule, assumptions, exhaustive=False, min_nt=(100, 1000)):
+    def workers(tier, seed, work):
+        n = cases_q if tier == "quick" else cases_t
+        per = max(1, n // NPROC)
+        jobs = []
+        for i in range(NPROC):
+            d = os.path.join(work, f"w{i}")
+            jobs.append(dict(argv=[os.path.join(BIN, "names.exc"), "--prop", pid, "--seed", str(mix(seed, i)), "--cases", str(per), "--out", os.path.join(d, "stats.json"), "--faildir", d],
+                             out=os.path.join(d, "stats.json"), faildir=d))
+        return jobs
+    if pid == "C14":   # the enumeration is deterministic: replaying means running it again
+        rp = lambda path: [[os.path.join(BIN, "names.exc"), "--prop", "C14", "--seed", "1", "--cases", "400", "--out", "/dev/null", "--faildir", os.path.join(BUILD, "work", "C14_replay")]]
+    else:
+        rp = lambda path: [[os.path.join(BIN, "names.exc"), "--replay", path]]
+    return dict(id=pid, variants=["exc"], bins=["names.exc"], workers=workers, replay_argv=rp, rule=rule, assumptions=assumptions, exhaustive=exhaustive,
+                min_nontrivial={"quick": min_nt[0], "thorough": min_nt[1]}, timeout={"quick": 600, "thorough": 2400})
+
+
+CHECKS["C13"] = names_check("C13", 48000, 1200000,
+    "rapidcheck draws a catalogue name (from masa_printid) and a transformation: (50%) per-character case flips plus runs of 0..3 characters from {'-',' '} at every gap incl. before the first and after "
+    "the last character; (50%) negatives: one character deleted/replaced/transposed, '_' removed, another separator (tab . _ newline + /) inserted, prefixes/extensions, random printable strings, raw bytes, empty. "
+    "Oracle: reference normaliser lower(s) without '-' and ' '; norm(s) in catalogue <=> masa_init returns, masa_get_name == norm(s), the handle is listed verbatim; otherwise int 1 is thrown after 'MASA FATAL ERROR' and "
+    "masa_list_mms is unchanged (a pre-existing handle is registered first). Both scalar types, 7 handle strings. Non-trivial: decorated string != name containing a run of >= 2 adjacent separators or a leading/trailing one, or a near-miss negative; distinct by (string, handle, type).",
+    ["exception build (-DMASA_EXCEPTIONS) observes rejections in-process; the exit() path of the same code is covered by C16's forked runs", "ASCII lower-casing (C locale)"])
+CHECKS["C14"] = names_check("C14", 16000, 400000,
+    "exhaustive part: every name printed by masa_printid<double> / <long double> (equal lists, unique, own normal form, in spec/capabilities.json) is initialised in both scalar types; get_name, sanity_check == 0, "
+    "init_param == 0 and get_dimension against the spec for every non-fixture entry. Generated part: rapidcheck draws (entry, scalar type, interior point in (0.05,0.95)^4, direction index) and calls EVERY evaluator of the entry's "
+    "capability set with default parameters: finite and not -1.33. evaluations = enumerated entries + evaluator calls; distinct_nontrivial = distinct (entry, type, point).",
+    ["capability sets and dimensions come from the committed spec/capabilities.json", "interior point: all coordinates in (0.05, 0.95), which is inside every solution's domain (r > 0, eta in (0,1), x,y > 0, t > 0)"], exhaustive=True)
+
+
+def c16_check():
+    rule = (HIST_GEN + "C16: a C12-style history with fatal-misuse steps injected at random points: any solution-dependent API function (117 C++ overloads x 2 types, parameter/vector/utility functions, every C entry point) on a registry "
+            "that has no solution yet, masa_select_mms of an unknown handle, masa_init of an unknown name onto a new or an existing handle (C and C++). Exception build: int 1 is thrown after 'MASA FATAL ERROR', then every handle of both registries "
+            "and the selection are compared with the unchanged model and the history goes on. exit() build: the failing call runs in a forked child; the parent requires exit status 1 and the message on the child's stdout. "
+            "Non-trivial: a misuse step after a non-empty prefix.")
+    def workers(tier, seed, work):
+        n = 16000 if tier == "quick" else 400000
+        per = max(1, n // NPROC)
+        jobs = []
+        for i in range(NPROC):
+            d = os.path.join(work, f"w{i}")
+            mode = i % 2
+            jobs.append(dict(argv=[os.path.join(BIN, "hist.base" if mode else "hist.exc"), "--prop", "C16", "--fatal-mode", str(mode), "--seed", str(mix(seed, i)), "--cases", str(per if not mode else max(1, per // 4)), "--maxsize", "100" if tier == "quick" else "200",
+                                   "--out", os.path.join(d, "stats.json"), "--faildir", d], out=os.path.join(d, "stats.json"), faildir=d))
+        return jobs
+    return dict(id="C16", variants=["exc", "base"], bins=["hist.exc", "hist.base"], workers=workers,
+                replay_argv=lambda path: [[os.path.join(BIN, "hist.exc"), "--replay", path, "--fatal-mode", "0"], [os.path.join(BIN, "hist.base"), "--replay", path, "--fatal-mode", "1"]],
+                rule=rule, assumptions=HIST_ASSUME + ["'state intact' is only observable, and only checked, in the exception build; the exit() build is observed from outside through fork()", "sod_1d is left out of the exit() build's catalogue: its own fatal error on non-bracketing parameters would end the harness"],
+                min_nontrivial={"quick": 100, "thorough": 1000}, timeout={"quick": 900, "thorough": 3000})
+
+
+CHECKS["C16"] = c16_check()
